@@ -40,6 +40,11 @@ ASYM_BY_DESIGN = {
     "melody.to_cent_voicing": "the estimate is resampled onto the reference time base (identity when the bases coincide, checked below)",
     "multipitch.metrics": "the estimate is resampled onto the reference time base when they differ (checked below)",
 }
+# for these two only the named nodes are exempt, every other combining node must still be a mirror
+ASYM_NODES = {
+    "melody.to_cent_voicing": {"melody.resample_melody_series"},
+    "multipitch.metrics": {"multipitch.resample_multipitch", "np.allclose", "cmp !="},
+}
 SCOPE_SKIP = {"separation", "sonify", "io", "util", "display"}
 
 
@@ -51,6 +56,24 @@ def _unloop(t):
             return tm.mk("iter", tm.rebuild(x.a[0], f), "*")
         if x.op == "idx":
             return tm.mk("idx", "*")
+        return None
+
+    return tm.rebuild(t, f)
+
+
+RESAMPLERS = {"multipitch.resample_multipitch": 1, "melody.resample_melody_series": None}
+
+
+def _strip_resample(t):
+    """Time-base alignment of the estimate is transparent for the mirror argument (identity when the bases coincide)."""
+
+    def f(x):
+        if x.op == "call" and call_name(x) == "multipitch.resample_multipitch" and len(x.a[1]) == 3:
+            return tm.rebuild(x.a[1][1], f)
+        if x.op == "ite":
+            a, b = tm.rebuild(x.a[1], f), tm.rebuild(x.a[2], f)
+            if a is b:
+                return a
         return None
 
     return tm.rebuild(t, f)
@@ -74,7 +97,8 @@ def rule_mirrorpipe(ctx):
         seen = set()
         k = 0
         for r in s.returns:
-            for x in tm.walk(r.term, seen):
+            rt = _strip_resample(r.term) if f.qual in ASYM_NODES else r.term
+            for x in tm.walk(rt, seen):
                 if x.op in ("bin", "cmp"):
                     kids = tm.children(x)
                 elif x.op == "call":
@@ -87,7 +111,10 @@ def rule_mirrorpipe(ctx):
                     continue
                 k += 1
                 name = call_name(x) if x.op == "call" else "%s %s" % (x.op, x.a[0])
-                if f.qual in ASYM_BY_DESIGN:
+                if f.qual in ASYM_NODES:
+                    if name in ASYM_NODES[f.qual]:
+                        continue
+                elif f.qual in ASYM_BY_DESIGN:
                     continue
                 good = False
                 for a in Rk:
